@@ -436,6 +436,12 @@ def rVhor (g : Graph) (refs : List Nat) : RExpr := .commits (refs ++ g.heads)
 /-- `resolve_all` -/
 def rAll (g : Graph) (refs : List Nat) : RExpr := .ancestors (rVhor g refs) 0 none false
 
+/-- `(!matches!(filter, All)).then(|| resolve_predicate(filter))` -/
+def filterOpt (f : Expr) (p : PExpr) : Option PExpr :=
+  match f with
+  | .all => none
+  | _ => some p
+
 mutual
 /-- `VisibilityResolutionContext::resolve` (`is_heads_normalized = true`) -/
 def resolve (g : Graph) (refs : List Nat) : Expr → RExpr
@@ -452,10 +458,7 @@ def resolve (g : Graph) (refs : List Nat) : Expr → RExpr
   | .reachable s d => .reachable (resolve g refs s) (resolve g refs d)
   | .heads x => .heads (resolve g refs x)
   | .headsRange r h fp f =>
-    .headsRange (resolve g refs r) (resolve g refs h) fp
-      (match f with
-       | .all => none
-       | f => some (resolvePred g refs f))
+    .headsRange (resolve g refs r) (resolve g refs h) fp (filterOpt f (resolvePred g refs f))
   | .roots x => .roots (resolve g refs x)
   | .forkPoint x => .forkPoint (resolve g refs x)
   | .latest x n => .latest (resolve g refs x) n
@@ -483,10 +486,7 @@ def resolvePred (g : Graph) (refs : List Nat) : Expr → PExpr
   | .reachable s d => .set (.reachable (resolve g refs s) (resolve g refs d))
   | .heads x => .set (.heads (resolve g refs x))
   | .headsRange r h fp f =>
-    .set (.headsRange (resolve g refs r) (resolve g refs h) fp
-      (match f with
-       | .all => none
-       | f => some (resolvePred g refs f)))
+    .set (.headsRange (resolve g refs r) (resolve g refs h) fp (filterOpt f (resolvePred g refs f)))
   | .roots x => .set (.roots (resolve g refs x))
   | .forkPoint x => .set (.forkPoint (resolve g refs x))
   | .latest x n => .set (.latest (resolve g refs x) n)
